@@ -76,7 +76,31 @@ def cmpInt : CmpOpK → Int → Int → Option Bool
   | .eq, a, b => some (a == b) | .notEq, a, b => some (a != b) | .lt, a, b => some (a < b) | .ltE, a, b => some (a ≤ b)
   | .gt, a, b => some (a > b) | .gtE, a, b => some (a ≥ b) | _, _, _ => none
 
-mutual
+/-- `a op b` on values -/
+def binVal (a b : Val) (op : BinOpK) : Option (Except String Val) :=
+  match a, b, op with
+  | .str x, .str y, .add => some (.ok (.str (x ++ y)))
+  | .bool x, .bool y, .bitAnd => some (.ok (.bool (x && y)))
+  | .bool x, .bool y, .bitOr => some (.ok (.bool (x || y)))
+  | .bool x, .bool y, .bitXor => some (.ok (.bool (x != y)))
+  | _, _, _ =>
+    match a.asInt, b.asInt, pyOp op with
+    | some x, some y, some o =>
+      (match PyInt.eval o x y with
+       | some v => some (.ok (.int v))
+       | none => if (o == .floorDiv || o == .mod) && y == 0 then some (.error "ZeroDivisionError") else none)
+    | _, _, _ => none
+
+/-- `a op b` for one comparison operator -/
+def cmpVal (a b : Val) (op : CmpOpK) : Option (Except String Val) :=
+  match a.asInt, b.asInt with
+  | some x, some y => (match cmpInt op x y with | some t => some (.ok (.bool t)) | none => none)
+  | _, _ =>
+    (match op with
+     | .eq => some (.ok (.bool (a == b)))
+     | .notEq => some (.ok (.bool (a != b)))
+     | _ => none)
+
 /-- pure expressions (no calls): `none` = outside the core, `some (Except exc v)` -/
 def evalE (s : St) : Expr → Option (Except String Val)
   | .constant .none => some (.ok .none)
@@ -93,30 +117,12 @@ def evalE (s : St) : Expr → Option (Except String Val)
       | r => r)
   | .binOp l op r => (match evalE s l with
       | some (.ok a) => (match evalE s r with
-          | some (.ok b) =>
-            (match a, b, op with
-             | .str x, .str y, .add => some (.ok (.str (x ++ y)))
-             | .bool x, .bool y, .bitAnd => some (.ok (.bool (x && y)))
-             | .bool x, .bool y, .bitOr => some (.ok (.bool (x || y)))
-             | .bool x, .bool y, .bitXor => some (.ok (.bool (x != y)))
-             | _, _, _ =>
-               match a.asInt, b.asInt, pyOp op with
-               | some x, some y, some o =>
-                 (match PyInt.eval o x y with
-                  | some v => some (.ok (.int v))
-                  | none => if (o == .floorDiv || o == .mod) && y == 0 then some (.error "ZeroDivisionError") else none)
-               | _, _, _ => none)
+          | some (.ok b) => binVal a b op
           | r' => r')
       | r' => r')
   | .compare l [op] [r] => (match evalE s l with
       | some (.ok a) => (match evalE s r with
-          | some (.ok b) =>
-            (match a.asInt, b.asInt with
-             | some x, some y => (match cmpInt op x y with | some t => some (.ok (.bool t)) | none => none)
-             | _, _ => (match op with
-                 | .eq => some (.ok (.bool (a == b)))
-                 | .notEq => some (.ok (.bool (a != b)))
-                 | _ => none))
+          | some (.ok b) => cmpVal a b op
           | r' => r')
       | r' => r')
   | .boolOp .and_ [a, b] => (match evalE s a with
@@ -129,7 +135,6 @@ def evalE (s : St) : Expr → Option (Except String Val)
       | some (.ok v) => if v.truthy then evalE s a else evalE s b
       | r => r)
   | _ => none
-end
 
 /-- evaluate call arguments left to right -/
 def evalArgs (s : St) : List Expr → Option (Except String (List Val))
@@ -145,8 +150,11 @@ def evalArgs (s : St) : List Expr → Option (Except String (List Val))
 /-- static function table: name ↦ (parameter names, body) for the module's top-level plain `def`s -/
 abbrev FTab := List (String × List String × List Stmt)
 
+def argName : Arg → String
+  | .mk n _ => n
+
 def paramNames : Arguments → Option (List String)
-  | .mk [] args none [] [] none [] => some (args.map fun a => match a with | .mk n _ => n)
+  | .mk po args none [] [] none [] => some ((po ++ args).map argName)
   | _ => none
 
 def globalsOf : Stmt → List String
@@ -167,6 +175,47 @@ def callOf : Stmt → Option (String × List Expr × Option String)
   | .assign [.name x _] (.call (.name f _) args []) => some (f, args, some x)
   | _ => none
 
+/-- evaluate, then continue with the value; an exception ends the statement, an expression outside the core is stuck -/
+def evalThen (s : St) (e : Expr) (k : Val → Res Flow) : Res Flow :=
+  match evalE s e with
+  | some (.ok v) => k v
+  | some (.error x) => .raised x s
+  | none => .stuck
+
+def isConst : Expr → Bool
+  | .constant _ => true
+  | _ => false
+
+/-- the arguments of a `print(...)` call without keywords -/
+def printArgs : Expr → Option (List Expr)
+  | .call (.name f _) args [] => if f == "print" then some args else none
+  | _ => none
+
+/-- an expression statement that is not a call of a table function -/
+def exprStmt (s : St) (e : Expr) : Res Flow :=
+  if isConst e then .ok (.normal s)        -- a literal statement does nothing
+  else match printArgs e with
+    | some args =>
+      (match evalArgs s args with
+       | some (.ok vs) => .ok (.normal { s with out := s.out ++ [" ".intercalate (vs.map Val.show)] })
+       | some (.error x) => .raised x s
+       | none => .stuck)
+    | none => evalThen s e (fun _ => .ok (.normal s))
+
+def nameOf : Expr → Option (String × Ctx)
+  | .name x c => some (x, c)
+  | _ => none
+
+def assignTarget : List Expr → Option String
+  | [.name x _] => some x
+  | _ => none
+
+/-- `raise N` / `raise N()` -/
+def raiseName : Option Expr → Option Expr → Option String
+  | some (.name n _), none => some n
+  | some (.call (.name n _) [] []), none => some n
+  | _, _ => none
+
 /-- statements without a nested block and without a call of a table function -/
 def simpleExec (s : St) : Stmt → Res Flow
   | .pass => .ok (.normal s)
@@ -175,39 +224,21 @@ def simpleExec (s : St) : Stmt → Res Flow
   | .break_ => .ok (.broke s)
   | .continue_ => .ok (.continued s)
   | .return_ none => .ok (.returned .none s)
-  | .return_ (some e) =>
-    (match evalE s e with
-     | some (.ok v) => .ok (.returned v s)
-     | some (.error x) => .raised x s
+  | .return_ (some e) => evalThen s e (fun v => .ok (.returned v s))
+  | .expr e => exprStmt s e
+  | .assign ts e =>
+    (match assignTarget ts with
+     | some x => evalThen s e (fun v => .ok (.normal (s.assign x v)))
      | none => .stuck)
-  | .expr (.constant _) => .ok (.normal s)      -- a literal statement does nothing
-  | .expr (.call (.name "print" _) args []) =>
-    (match evalArgs s args with
-     | some (.ok vs) => .ok (.normal { s with out := s.out ++ [" ".intercalate (vs.map Val.show)] })
-     | some (.error x) => .raised x s
+  | .augAssign tg op e =>
+    (match nameOf tg with
+     | some (x, c) => evalThen s (.binOp (.name x c) op e) (fun v => .ok (.normal (s.assign x v)))
      | none => .stuck)
-  | .expr e =>
-    (match evalE s e with
-     | some (.ok _) => .ok (.normal s)
-     | some (.error x) => .raised x s
+  | .assert_ c _ => evalThen s c (fun v => if v.truthy then .ok (.normal s) else .raised "AssertionError" s)
+  | .raise_ e c =>
+    (match raiseName e c with
+     | some n => .raised n s
      | none => .stuck)
-  | .assign [.name x _] e =>
-    (match evalE s e with
-     | some (.ok v) => .ok (.normal (s.assign x v))
-     | some (.error x') => .raised x' s
-     | none => .stuck)
-  | .augAssign (.name x c) op e =>
-    (match evalE s (.binOp (.name x c) op e) with
-     | some (.ok v) => .ok (.normal (s.assign x v))
-     | some (.error x') => .raised x' s
-     | none => .stuck)
-  | .assert_ c _ =>
-    (match evalE s c with
-     | some (.ok v) => if v.truthy then .ok (.normal s) else .raised "AssertionError" s
-     | some (.error x) => .raised x s
-     | none => .stuck)
-  | .raise_ (some (.name n _)) none => .raised n s
-  | .raise_ (some (.call (.name n _) [] [])) none => .raised n s
   | _ => .stuck
 
 /-- a function body that falls off its end returns `None` -/
